@@ -573,3 +573,855 @@ Proof.
   - pose proof (stepEL mf IE ID). pose proof (stepGL mf IE IG). pose proof (stepDL mf IG). auto.
 Qed.
 End Lockstep.
+
+(* ------------------------------------------------------------------ one part in lockstep *)
+Definition part_rel (g : gmeta) (m : mbase) (seen : list N) : Prop :=
+  same_table (mb_fp m) (g_traits g) /\ mb_subs m = g_subs g /\ seen_rel (mb_fp m) seen.
+
+Lemma part_rel_add g m seen f tr p v :
+  part_rel g m seen -> find_trait (mb_fp m) f = Some tr ->
+  part_rel g (mark_present (add_field_decoder m f p v) f) (f :: seen).
+Proof.
+  intros (H1 & H2 & H3) Hf. unfold part_rel. rewrite fp_mark, fp_afd, subs_mark, subs_afd.
+  split; [apply same_table_mark; assumption|]. split; [assumption|]. eapply seen_rel_mark; eassumption.
+Qed.
+Lemma part_rel_same g m m' seen :
+  mb_fp m' = mb_fp m -> mb_subs m' = mb_subs m -> part_rel g m seen -> part_rel g m' seen.
+Proof. unfold part_rel. intros -> ->. trivial. Qed.
+
+Lemma no_auto_cons g t r : no_auto g (t :: r) = true -> is_auto g (k_tag t) = false /\ no_auto g r = true.
+Proof.
+  unfold no_auto. cbn [forallb]. intros H. apply andb_true_iff in H. destruct H as [H1 H2].
+  apply negb_true_iff in H1. auto.
+Qed.
+Lemma no_auto_app g a b : no_auto g (a ++ b) = true -> no_auto g a = true /\ no_auto g b = true.
+Proof. unfold no_auto. rewrite forallb_app. intros H. apply andb_true_iff in H. exact H. Qed.
+
+Section Part.
+Variable c : ctx. Variable from : list N. Variable fsize : N. Variable gfuel : nat.
+Notation DEC := (dec_loop c real_caps from fsize false gfuel).
+
+Definition part_result (g : gmeta) (m : mbase) (off : N) (ts : list tok) (seen : list N) (sf : nat)
+                       (r : res (mbase * N)) : Prop :=
+  match sp_fields sf g false seen ts with
+  | PViol => exists e, r = Exc e
+  | PRest seen' rest =>
+      if mand_ok g seen' then
+        exists m' consumed, ts = consumed ++ rest /\ r = Ok (m', off + lenN (ser consumed)) /\
+          part_rel g m' seen' /\ Permutation (mflat m') (mflat m ++ map tok_pair consumed)
+      else exists e, r = Exc e
+  end.
+
+Lemma finish_result g m off pos lvp lvo seen ts :
+  wf_table c false g = true -> part_rel g m seen ->
+  (if mand_ok g seen then
+     exists m' consumed, ts = consumed ++ ts /\ dec_finish false m off pos lvp lvo = Ok (m', off + lenN (ser consumed)) /\
+       part_rel g m' seen /\ Permutation (mflat m') (mflat m ++ map tok_pair consumed)
+   else exists e, dec_finish false m off pos lvp lvo = Exc e).
+Proof.
+  intros Hwf (Hst & Hsubs & Hseen).
+  destruct (wf_table_unfold _ _ _ Hwf) as (Hnd & _ & _).
+  pose proof (mand_rel g (mb_fp m) seen Hnd Hst Hseen) as Hmand. unfold dec_finish.
+  destruct (mand_ok g seen) eqn:Hmo.
+  - assert (Hfm : find_missing (mb_fp m) = None) by (apply Hmand; reflexivity). rewrite Hfm.
+    exists m, []. cbn [app map andb]. rewrite lenN_ser_nil, N.add_0_r, app_nil_r.
+    split; [reflexivity|]. split; [reflexivity|]. split; [unfold part_rel; auto | reflexivity].
+  - destruct (find_missing (mb_fp m)) as [f0|] eqn:Hfm; [eauto|].
+    destruct Hmand as [Hm1 _]. discriminate (Hm1 eq_refl).
+Qed.
+
+Lemma part_lockstep : forall mf g m pos off ts tail seen sf lvp lvo tb,
+  wf_table c false g = true -> part_rel g m seen -> toks_ok c ts = true -> no_auto g ts = true ->
+  at_toks from fsize off ts tail -> (3 * length ts + 1 <= sf)%nat ->
+  DEC mf m off pos lvp lvo tb <> Fuel ->
+  part_result g m off ts seen sf (DEC mf m off pos lvp lvo tb).
+Proof.
+  induction mf as [|mf IH]; intros g m pos off ts tail seen sf lvp lvo tb Hwf Hrel Hok Hna Hat Hsf Hnf;
+    [exfalso; apply Hnf; reflexivity|].
+  destruct sf as [|sf]; [lia|].
+  unfold part_result. rewrite dec_loop_strict_S in *. cbv zeta in *.
+  destruct ts as [|t r].
+  { rewrite (at_nil _ _ _ _ Hat) in *. rewrite N.leb_refl, tok_at_end_real in *. cbn [sp_fields].
+    apply finish_result; assumption. }
+  destruct (toks_ok_cons _ _ _ Hok) as [Hokt Hokr].
+  destruct (tok_ok_facts _ _ Hokt) as (Htag & Hval & Hint & Hlen).
+  destruct (at_cons _ _ _ _ _ _ Hat Htag Hval) as (_ & Hle & Htok & Hat1).
+  destruct (no_auto_cons _ _ _ Hna) as [Hnat Hnar].
+  rewrite Hle, Htok in *.
+  rewrite (atoi_u16_itoa (k_tag t) Htag) in *.
+  destruct (val_ok_facts _ Hval) as (_ & _ & Hnz & _).
+  rewrite (cstr_nonzero _ Hnz) in *.
+  cbn [sp_fields andb].
+  destruct Hrel as (Hst & Hsubs & Hseen).
+  assert (Hrel : part_rel g m seen) by (unfold part_rel; auto).
+  destruct (find_trait (mb_fp m) (k_tag t)) as [tr|] eqn:Hf.
+  2:{ rewrite (same_table_find_none _ _ _ Hst Hf). apply finish_result; assumption. }
+  destruct (same_table_find_some _ _ _ _ Hst Hf) as (tr' & Hf' & Hs). rewrite Hf'.
+  rewrite (seen_present _ _ _ _ Hseen Hf) in *.
+  destruct (memN (k_tag t) seen) eqn:Hm.
+  { (* duplicate *)
+    unfold is_auto in Hnat. rewrite Hf' in Hnat. rewrite (auto_strip _ _ Hs), Hnat. eauto. }
+  destruct (wf_trait2 _ _ _ _ _ Hwf Hf') as (Hbe & Hgrp & _).
+  rewrite Hbe in *.
+  set (pos1 := (pos + 1) mod 4294967296) in *.
+  pose proof (part_rel_add g m seen (k_tag t) tr pos1 (k_val t) Hrel Hf) as Hrel1.
+  set (m1 := mark_present (add_field_decoder m (k_tag t) pos1 (k_val t)) (k_tag t)) in *.
+  set (off1 := off + lenN (ser_tok t)) in *.
+  assert (Hnl : negb (t_ftype tr =? ft_Length) || (k_tag t =? Common_BodyLength) = true).
+  { destruct (t_ftype tr =? ft_Length) eqn:E; [|reflexivity]. cbn [negb orb]. apply N.eqb_eq in E.
+    apply N.eqb_eq. apply Hlen. rewrite (ftype_find _ _ _ Hbe), <- (ftype_strip _ _ Hs). assumption. }
+  rewrite Hnl in *.
+  assert (Hcont : forall m' cons1 r',
+    r = cons1 ++ r' -> part_rel g m' (k_tag t :: seen) ->
+    Permutation (mflat m') (mflat m ++ tok_pair t :: map tok_pair cons1) ->
+    DEC mf m' (off1 + lenN (ser cons1)) pos1 lvp lvo (tagbuf_after (itoa_N (k_tag t)) tb) <> Fuel ->
+    match sp_fields sf g false (k_tag t :: seen) r' with
+    | PViol => exists e, DEC mf m' (off1 + lenN (ser cons1)) pos1 lvp lvo (tagbuf_after (itoa_N (k_tag t)) tb) = Exc e
+    | PRest seen' rest =>
+        if mand_ok g seen' then
+          exists m'' consumed, t :: r = consumed ++ rest /\
+            DEC mf m' (off1 + lenN (ser cons1)) pos1 lvp lvo (tagbuf_after (itoa_N (k_tag t)) tb)
+              = Ok (m'', off + lenN (ser consumed)) /\
+            part_rel g m'' seen' /\ Permutation (mflat m'') (mflat m ++ map tok_pair consumed)
+        else exists e, DEC mf m' (off1 + lenN (ser cons1)) pos1 lvp lvo (tagbuf_after (itoa_N (k_tag t)) tb) = Exc e
+    end).
+  { intros m' cons1 r' Er Hrel' Hperm Hnf'.
+    subst r. destruct (toks_ok_app _ _ _ Hokr) as [_ Hokr']. destruct (no_auto_app _ _ _ Hnar) as [_ Hnar'].
+    pose proof (at_suffix _ _ _ _ _ _ Hat1) as Hat'.
+    assert (Hsf' : (3 * length r' + 1 <= sf)%nat).
+    { cbn [length] in Hsf. rewrite app_length in Hsf. lia. }
+    pose proof (IH g m' pos1 (off1 + lenN (ser cons1)) r' tail (k_tag t :: seen) sf lvp lvo
+                   (tagbuf_after (itoa_N (k_tag t)) tb) Hwf Hrel' Hokr' Hnar' Hat' Hsf' Hnf') as HI.
+    unfold part_result in HI.
+    destruct (sp_fields sf g false (k_tag t :: seen) r') as [|seen' rest]; [exact HI|].
+    destruct (mand_ok g seen'); [|exact HI].
+    destruct HI as (m'' & cons2 & Er' & Hres & Hrel'' & Hperm2).
+    exists m'', (t :: cons1 ++ cons2). split; [|split; [|split]].
+    - subst r'. cbn [app]. rewrite <- app_assoc. reflexivity.
+    - rewrite Hres. f_equal. f_equal. unfold off1. rewrite ser_cons, ser_app, !lenN_app. lia.
+    - assumption.
+    - eapply perm_trans; [exact Hperm2|].
+      eapply perm_trans; [apply Permutation_app_tail; exact Hperm|].
+      rewrite <- app_assoc. apply Permutation_app_head. cbn [map app]. rewrite map_app. reflexivity. }
+  unfold opt_group in *.
+  rewrite (group_strip _ _ Hs) in *.
+  destruct (t_group tr') eqn:Hg; cbn [andb] in *.
+  2:{ specialize (Hcont m1 [] r eq_refl Hrel1). cbn [ser flat_map lenN map] in Hcont. rewrite N.add_0_r in Hcont.
+      apply Hcont; [|assumption]. unfold m1. apply mflat_add_tok. }
+  destruct (Hgrp eq_refl) as (Hit & sg' & Hsub & Hwf').
+  assert (Hcnt : has_group_count (k_val t) = count_pos (k_val t)).
+  { rewrite <- (cstr_nonzero _ Hnz) at 1. apply count_agree. apply Hint.
+    rewrite (ftype_find _ _ _ Hbe). assumption. }
+  rewrite Hcnt in *.
+  destruct (count_pos (k_val t)) eqn:Hcp.
+  2:{ specialize (Hcont m1 [] r eq_refl Hrel1). cbn [ser flat_map lenN map] in Hcont. rewrite N.add_0_r in Hcont.
+      apply Hcont; [|assumption]. unfold m1. apply mflat_add_tok. }
+  rewrite Hsub.
+  assert (Hsub1 : find_sub (mb_subs m1) (k_tag t) = Some sg').
+  { destruct Hrel1 as (_ & Hs1 & _). rewrite Hs1. assumption. }
+  assert (Hnf1 : decode_group c real_caps from fsize gfuel m1 (k_tag t) off1 <> Fuel).
+  { intros E. rewrite E in Hnf. apply Hnf. reflexivity. }
+  assert (Hsf1 : (3 * length r + 2 <= sf)%nat) by (cbn [length] in Hsf; lia).
+  destruct (lockstep_groups c from fsize gfuel) as (_ & _ & HDL).
+  pose proof (HDL m1 (k_tag t) sg' off1 r tail sf Hsub1 Hwf' Hokr Hat1 Hsf1 Hnf1) as HD.
+  destruct (sp_elems sf sg' r) as [r'|].
+  2:{ destruct HD as (e & He). rewrite He. eauto. }
+  destruct HD as (m2 & cons1 & Er & Hres & E1 & E2 & E3 & Hperm).
+  rewrite Hres in *.
+  apply (Hcont m2 cons1 r' Er).
+  - eapply part_rel_same; eauto.
+  - eapply perm_trans; [exact Hperm|].
+    eapply perm_trans; [apply Permutation_app_tail; unfold m1; apply mflat_add|].
+    cbn [app]. apply Permutation_middle.
+  - assumption.
+Qed.
+End Part.
+
+(* ------------------------------------------------------------------ the spec's tokenizer on ser *)
+Lemma dec_digits_app a b acc :
+  all_digits a -> dec_digits (a ++ b) acc = match dec_digits a acc with Some v => dec_digits b v | None => None end.
+Proof.
+  revert acc. induction a as [|x a IH]; intros acc Ha; cbn [app dec_digits]; [reflexivity|].
+  inversion Ha as [|? ? Hx Ha']; subst. rewrite Hx. apply IH. assumption.
+Qed.
+Lemma dec_digits_itoa n : dec_digits (itoa_N n) 0 = Some n.
+Proof.
+  induction n as [n H|n H IH] using N_div10_ind.
+  - rewrite itoa_small by assumption. cbn [dec_digits]. rewrite is_digit_48 by assumption. f_equal. lia.
+  - rewrite itoa_step by assumption. rewrite dec_digits_app by apply itoa_digits. rewrite IH.
+    cbn [dec_digits]. rewrite is_digit_48 by (apply N.mod_lt; lia). f_equal.
+    pose proof (N.div_mod n 10). lia.
+Qed.
+
+Lemma scan_digits : forall d rest tag have val n,
+  d <> [] -> dec_digits d tag = Some n ->
+  scan (d ++ rest) true tag have val = scan rest true n true val.
+Proof.
+  induction d as [|x d IH]; intros rest tag have val n Hne Hd; [congruence|].
+  cbn [app scan dec_digits] in *. destruct (is_digit x); [|discriminate].
+  destruct d as [|y d'].
+  - cbn [dec_digits] in Hd. injection Hd as <-. reflexivity.
+  - apply IH; [discriminate | assumption].
+Qed.
+Lemma scan_val : forall v rest tag have acc,
+  no_soh v ->
+  scan (v ++ SOH :: rest) false tag have acc =
+  match scan rest true 0 false [] with Some ts => Some (mkTok tag (rev acc ++ v) :: ts) | None => None end.
+Proof.
+  induction v as [|x v IH]; intros rest tag have acc Hv; cbn [app scan].
+  - rewrite N.eqb_refl, app_nil_r. reflexivity.
+  - inversion Hv as [|? ? Hx Hv']; subst. rewrite Hx. rewrite IH by assumption.
+    cbn [rev]. rewrite <- app_assoc. reflexivity.
+Qed.
+Lemma scan_tok t rest : no_soh (k_val t) ->
+  scan (ser_tok t ++ rest) true 0 false [] =
+  match scan rest true 0 false [] with Some ts => Some (t :: ts) | None => None end.
+Proof.
+  intros Hv. unfold ser_tok. rewrite <- app_assoc.
+  rewrite (scan_digits (itoa_N (k_tag t)) _ 0 false [] (k_tag t) (itoa_nonempty _) (dec_digits_itoa _)).
+  cbn [app scan]. change (is_digit EQC) with false. cbn iota. rewrite N.eqb_refl. cbn [andb].
+  rewrite <- app_assoc. cbn [app]. rewrite scan_val by assumption. cbn [rev app]. destruct t; reflexivity.
+Qed.
+Lemma tokenize_ser c toks : toks_ok c toks = true -> tokenize (ser toks) = Some toks.
+Proof.
+  unfold tokenize. induction toks as [|t r IH]; intros Hok; [reflexivity|].
+  destruct (toks_ok_cons _ _ _ Hok) as [Hokt Hokr]. destruct (tok_ok_facts _ _ Hokt) as (_ & Hval & _).
+  destruct (val_ok_facts _ Hval) as (Hsoh & _). rewrite ser_cons, scan_tok by assumption.
+  rewrite (IH Hokr). reflexivity.
+Qed.
+
+(* ------------------------------------------------------------------ extract_header on a framed list *)
+Lemma extract_header_framed (t8 t9 t35 : tok) rest :
+  k_tag t8 = 8 -> k_tag t9 = 9 -> k_tag t35 = 35 ->
+  val_ok (k_val t8) = true -> val_ok (k_val t9) = true -> val_ok (k_val t35) = true ->
+  lenN (k_val t9) < 32 -> lenN (k_val t35) < 32 ->
+  extract_header (ser (t8 :: t9 :: t35 :: rest)) (cap_htag real_caps) (cap_hval real_caps)
+                 (cap_len real_caps) (cap_mtype real_caps)
+  = Ok (lenN (ser [t8; t9; t35]), k_val t9, k_val t35).
+Proof.
+  intros E8 E9 E35 V8 V9 V35 L9 L35.
+  destruct (val_ok_facts _ V8) as (S8 & B8 & _). destruct (val_ok_facts _ V9) as (S9 & _).
+  destruct (val_ok_facts _ V35) as (S35 & _).
+  unfold extract_header. cbn [real_caps cap_htag cap_hval cap_len cap_mtype].
+  unfold MAX_MSGTYPE_FIELD_LEN, MAX_FLD_LENGTH.
+  set (from := ser (t8 :: t9 :: t35 :: rest)).
+  assert (Hfrom : from = ser_tok t8 ++ ser_tok t9 ++ ser_tok t35 ++ ser rest) by reflexivity.
+  assert (Hlen : lenN from = lenN (ser_tok t8) + lenN (ser_tok t9) + lenN (ser_tok t35) + lenN (ser rest)).
+  { rewrite Hfrom, !lenN_app. lia. }
+  assert (T8 : lenN (itoa_N (k_tag t8)) < 32) by (pose proof (itoa_len_small (k_tag t8)); lia).
+  assert (T9 : lenN (itoa_N (k_tag t9)) < 32) by (pose proof (itoa_len_small (k_tag t9)); lia).
+  assert (T35 : lenN (itoa_N (k_tag t35)) < 32) by (pose proof (itoa_len_small (k_tag t35)); lia).
+  rewrite Hfrom at 1. rewrite extract_ser_tok; [|split; assumption|assumption|lia].
+  rewrite E8. change (hd_is (itoa_N 8) 56) with true. cbn [negb].
+  rewrite Hfrom at 1. rewrite skipN_app.
+  rewrite extract_ser_tok; [|split; assumption|assumption|lia].
+  rewrite E9. change (hd_is (itoa_N 9) 57) with true. cbn [negb].
+  rewrite Hfrom at 1. rewrite app_assoc, <- lenN_app, skipN_app.
+  rewrite extract_ser_tok; [|split; assumption|assumption|rewrite lenN_app; lia].
+  rewrite E35. change (hd_is (itoa_N 35) 51 && hd_is (tl (itoa_N 35)) 53) with true. cbn [negb].
+  f_equal. f_equal. f_equal. cbn [ser flat_map]. rewrite !lenN_app. cbn [lenN]. lia.
+Qed.
+
+(* ------------------------------------------------------------------ the spec on the framing tokens *)
+(* a plain (non-group) field of the table that has not been seen: one step of sp_fields *)
+Lemma sp_plain sf g seen t r tr :
+  find_trait (g_traits g) (k_tag t) = Some tr -> t_group tr = false -> memN (k_tag t) seen = false ->
+  sp_fields (S sf) g false seen (t :: r) = sp_fields sf g false (k_tag t :: seen) r.
+Proof. intros Hf Hg Hm. cbn [sp_fields]. rewrite Hf, Hm, Hg. reflexivity. Qed.
+
+Lemma memN_app x a b : memN x (a ++ b) = memN x a || memN x b.
+Proof. unfold memN. apply existsb_app. Qed.
+
+(* a table without repeating groups: the part parse of ts ++ [tx], where x (a plain field of
+   the table) occurs nowhere in ts, from the parse of ts that started with x already seen *)
+Lemma sp_ext g x tx trx :
+  forallb (fun tr => negb (t_group tr)) (g_traits g) = true ->
+  find_trait (g_traits g) x = Some trx -> k_tag tx = x ->
+  forall ts sf s, forallb (fun t => negb (k_tag t =? x)) ts = true -> memN x s = false ->
+    (length ts + 2 <= sf)%nat ->
+    match sp_fields sf g false (s ++ [x]) ts with
+    | PViol => sp_fields (S sf) g false s (ts ++ [tx]) = PViol
+    | PRest s' [] => exists s0, s' = s0 ++ [x] /\ sp_fields (S sf) g false s (ts ++ [tx]) = PRest (x :: s0) []
+    | PRest s' (t' :: rest') =>
+        exists s0, s' = s0 ++ [x] /\ sp_fields (S sf) g false s (ts ++ [tx]) = PRest s0 (t' :: rest' ++ [tx])
+    end.
+Proof.
+  intros Hng Hfx Etx. assert (Hgx : t_group trx = false).
+  { destruct (find_trait_fnum _ _ _ Hfx) as [_ Hin]. rewrite forallb_forall in Hng. specialize (Hng _ Hin).
+    apply negb_true_iff in Hng. assumption. }
+  induction ts as [|t r IH]; intros sf s Hts Hms Hsf.
+  - destruct sf as [|sf]; [cbn in Hsf; lia|].
+    change (sp_fields (S sf) g false (s ++ [x]) []) with (PRest (s ++ [x]) (@nil tok)). cbn iota.
+    exists s. split; [reflexivity|]. cbn [app].
+    rewrite <- Etx in Hfx, Hms.
+    rewrite (sp_plain _ _ _ _ _ _ Hfx Hgx Hms). cbn [sp_fields]. rewrite Etx. reflexivity.
+  - destruct sf as [|sf]; [cbn in Hsf; lia|]. cbn [forallb] in Hts. apply andb_true_iff in Hts.
+    destruct Hts as [Ht Hr]. apply negb_true_iff in Ht. apply N.eqb_neq in Ht.
+    cbn [sp_fields app andb].
+    destruct (find_trait (g_traits g) (k_tag t)) as [tr|] eqn:Hf.
+    2:{ exists s. split; reflexivity. }
+    rewrite memN_app. cbn [memN existsb]. rewrite orb_false_r.
+    assert (E : (k_tag t =? x) = false) by (apply N.eqb_neq; assumption). rewrite E, orb_false_r.
+    destruct (memN (k_tag t) s) eqn:Hm; [reflexivity|].
+    assert (Hg : t_group tr = false).
+    { destruct (find_trait_fnum _ _ _ Hf) as [_ Hin]. rewrite forallb_forall in Hng. specialize (Hng _ Hin).
+      apply negb_true_iff in Hng. assumption. }
+    rewrite Hg. cbn [andb].
+    assert (Hms' : memN x (k_tag t :: s) = false).
+    { rewrite memN_cons, Hms, orb_false_r. apply N.eqb_neq. congruence. }
+    specialize (IH sf (k_tag t :: s) Hr Hms' ltac:(cbn [length] in Hsf; lia)). cbn [app] in IH. exact IH.
+Qed.
+
+Lemma forallb_ext_in' {A} (f g : A -> bool) l : (forall x, In x l -> f x = g x) -> forallb f l = forallb g l.
+Proof.
+  induction l as [|y r IH]; intros H; cbn [forallb]; [reflexivity|].
+  rewrite (H y (or_introl eq_refl)), IH; [reflexivity|]. intros x Hx. apply H. right. assumption.
+Qed.
+
+Lemma mand_ok_ext g x s trx :
+  nodupN (map t_fnum (g_traits g)) = true -> find_trait (g_traits g) x = Some trx -> t_mand trx = false ->
+  mand_ok g (s ++ [x]) = mand_ok g s /\ mand_ok g (x :: s) = mand_ok g s.
+Proof.
+  intros Hnd Hfx Hm. apply nodupN_NoDup in Hnd. unfold mand_ok.
+  assert (H : forall tr, In tr (g_traits g) ->
+            (negb (t_mand tr) || memN (t_fnum tr) (s ++ [x]) = negb (t_mand tr) || memN (t_fnum tr) s) /\
+            (negb (t_mand tr) || memN (t_fnum tr) (x :: s) = negb (t_mand tr) || memN (t_fnum tr) s)).
+  { intros tr Hin. rewrite memN_app, memN_cons. cbn [memN existsb]. rewrite orb_false_r.
+    destruct (t_fnum tr =? x) eqn:E; [|rewrite orb_false_r; split; reflexivity].
+    apply N.eqb_eq in E. pose proof (find_trait_nodup _ _ Hnd Hin) as Hf. rewrite E, Hfx in Hf.
+    injection Hf as <-. rewrite Hm. split; reflexivity. }
+  split; apply forallb_ext_in'; intros tr Hin; apply (H tr Hin).
+Qed.
+
+(* ------------------------------------------------------------------ freshly constructed parts *)
+Lemma list_eqb_eq a b : list_eqb a b = true -> a = b.
+Proof.
+  revert b. induction a as [|x a IH]; intros [|y b] H; cbn [list_eqb] in H; try discriminate; [reflexivity|].
+  apply andb_true_iff in H. destruct H as [H1 H2]. apply N.eqb_eq in H1. subst. f_equal. auto.
+Qed.
+Lemma list_eqb_refl a : list_eqb a a = true.
+Proof. induction a as [|x a IH]; cbn [list_eqb]; [reflexivity|]. rewrite N.eqb_refl, IH. reflexivity. Qed.
+
+Lemma fold_init_pos : forall init m,
+  Permutation (map snd (mb_pos (fold_left add_init init m))) (map snd (mb_pos m) ++ map snd init).
+Proof.
+  induction init as [|[p [f v]] r IH]; intros m; cbn [fold_left map].
+  - rewrite app_nil_r. reflexivity.
+  - eapply perm_trans; [apply IH|]. unfold add_init. rewrite pos_mark, pos_afd. unfold pos_insert.
+    eapply perm_trans; [apply Permutation_app_tail; apply Permutation_map; apply pos_insert_k_perm|].
+    cbn [map snd app]. apply Permutation_middle.
+Qed.
+Lemma fold_init_groups : forall init m, mb_groups (fold_left add_init init m) = mb_groups m.
+Proof.
+  induction init as [|[p [f v]] r IH]; intros m; cbn [fold_left]; [reflexivity|].
+  rewrite IH. unfold add_init. rewrite groups_mark, groups_afd. reflexivity.
+Qed.
+Lemma gflat_deep_groups g d : gflat (deep_groups g d) = [].
+Proof.
+  unfold deep_groups. destruct (d && g_deep g); [|reflexivity].
+  induction (g_subs g) as [|s r IH]; cbn [fold_right]; [reflexivity|]. rewrite gflat_insert. exact IH.
+Qed.
+Lemma mflat_mk_part g init : Permutation (mflat (mk_part g init true)) (map snd init).
+Proof.
+  unfold mk_part. rewrite mflat_eq, fold_init_groups. unfold create_group at 2. cbn [mb_groups].
+  rewrite gflat_deep_groups, app_nil_r.
+  eapply perm_trans; [apply fold_init_pos|]. reflexivity.
+Qed.
+
+Lemma init_part_rel c g init fs :
+  wf_table c false g = true -> init_ok g init = true -> map (fun e => fst (snd e)) init = fs ->
+  part_rel g (mk_part g init true) fs.
+Proof.
+  intros Hwf Hio Efs. destruct (part_init_inv c g init Hwf Hio) as (Hst & Hsubs & _ & Hiff & _).
+  split; [assumption|]. split; [assumption|]. intros f. rewrite memN_In, <- Hiff, <- Efs.
+  unfold pos_tags, tags_of.
+  assert (HP : Permutation (map (fun e : N * (N * list N) => fst (snd e)) (mb_pos (mk_part g init true)))
+                           (map (fun e : N * (N * list N) => fst (snd e)) init)).
+  { rewrite <- !(map_map snd fst). apply Permutation_map. unfold mk_part.
+    eapply perm_trans; [apply fold_init_pos|]. reflexivity. }
+  split; intros H; [apply (Permutation_in _ (Permutation_sym HP)) | apply (Permutation_in _ HP)]; assumption.
+Qed.
+
+Lemma body_part_rel c g : wf_body c g = true -> part_rel g (create_group g false) [].
+Proof.
+  intros H. destruct (body_init_inv c g H) as (Hst & Hsubs & _ & Hiff & _).
+  split; [assumption|]. split; [assumption|]. intros f. rewrite <- Hiff. cbn. split; [discriminate | intros []].
+Qed.
+
+(* automatic flags, from init_ok *)
+Lemma init_ok_auto g init f :
+  init_ok g init = true ->
+  is_auto g f = match find_trait (g_traits g) f with Some _ => memN f (map (fun e => fst (snd e)) init) | None => false end.
+Proof.
+  intros Hio. unfold init_ok in Hio. cbv zeta in Hio. apply andb_true_iff in Hio. destruct Hio as [_ H3].
+  unfold is_auto. destruct (find_trait (g_traits g) f) as [tr|] eqn:Hf; [|reflexivity].
+  destruct (find_trait_fnum _ _ _ Hf) as [Hn Hin]. rewrite forallb_forall in H3. specialize (H3 _ Hin).
+  apply andb_true_iff in H3. destruct H3 as [H3 _]. apply eqb_prop in H3. rewrite Hn in H3. assumption.
+Qed.
+Lemma init_ok_plain g init f :
+  init_ok g init = true -> In f (map (fun e => fst (snd e)) init) ->
+  exists tr, find_trait (g_traits g) f = Some tr /\ t_group tr = false /\ t_mand tr = false.
+Proof.
+  intros Hio Hin. unfold init_ok in Hio. cbv zeta in Hio. apply andb_true_iff in Hio. destruct Hio as [Hio _].
+  apply andb_true_iff in Hio. destruct Hio as [_ H2]. rewrite forallb_forall in H2. specialize (H2 _ Hin).
+  destruct (find_trait (g_traits g) f) as [tr|]; [|discriminate]. exists tr. split; [reflexivity|].
+  apply andb_true_iff in H2. destruct H2 as [H2 _]. apply andb_true_iff in H2. destruct H2 as [Hg Hm].
+  apply negb_true_iff in Hg, Hm. auto.
+Qed.
+Lemma wf_body_no_auto c g ts : wf_body c g = true -> no_auto g ts = true.
+Proof.
+  intros H. unfold wf_body in H. apply andb_true_iff in H. destruct H as [_ H]. rewrite forallb_forall in H.
+  unfold no_auto. apply forallb_forall. intros t _. unfold is_auto.
+  destruct (find_trait (g_traits g) (k_tag t)) as [tr|] eqn:Hf; [|reflexivity].
+  destruct (find_trait_fnum _ _ _ Hf) as [_ Hin]. specialize (H _ Hin). apply andb_true_iff in H. apply H.
+Qed.
+
+(* ------------------------------------------------------------------ assembling Message::decode *)
+Lemma part_decode c bytes g m seen ts tail off ignore sf :
+  wf_table c false g = true -> part_rel g m seen -> toks_ok c ts = true -> no_auto g ts = true ->
+  at_toks bytes ((lenN bytes + 4294967296 - ignore) mod 4294967296) off ts tail ->
+  (3 * length ts + 1 <= sf)%nat ->
+  mbase_decode c real_caps bytes m off ignore false <> Fuel ->
+  part_result g m off ts seen sf (mbase_decode c real_caps bytes m off ignore false).
+Proof. intros. unfold mbase_decode, mb_decode in *. eapply part_lockstep; eauto. Qed.
+
+Lemma part_of_result g ts (sf : nat) : sf = sp_fuel ts ->
+  part g ts = match sp_fields sf g false [] ts with
+              | PViol => PViol
+              | PRest seen rest => if mand_ok g seen then PRest seen rest else PViol
+              end.
+Proof. intros ->. reflexivity. Qed.
+
+Lemma frame_split toks : framed toks = true ->
+  exists t8 t9 t35 mid t10, toks = t8 :: t9 :: t35 :: mid ++ [t10] /\
+    k_tag t8 = 8 /\ k_tag t9 = 9 /\ k_tag t35 = 35 /\ k_tag t10 = 10 /\ lenN (k_val t10) = 3 /\
+    last toks t8 = t10 /\ middle toks = mid.
+Proof.
+  destruct toks as [|t8 [|t9 [|t35 r]]]; try discriminate. unfold framed. intros H.
+  apply andb_true_iff in H. destruct H as [H H10]. apply andb_true_iff in H. destruct H as [H H35].
+  apply andb_true_iff in H. destruct H as [H8 H9]. cbv zeta in H10. apply andb_true_iff in H10. destruct H10 as [H10 HL].
+  apply N.eqb_eq in H8, H9, H35, H10, HL.
+  destruct r as [|x r'].
+  { cbn [last] in H10. congruence. }
+  assert (Hne : x :: r' <> []) by discriminate.
+  pose proof (app_removelast_last t8 Hne) as Hr.
+  exists t8, t9, t35, (removelast (x :: r')), (last (x :: r') t8).
+  assert (Hlast : last (t8 :: t9 :: t35 :: x :: r') t8 = last (x :: r') t8) by reflexivity.
+  rewrite Hlast in *. split; [rewrite <- Hr; reflexivity|]. repeat split; try assumption.
+Qed.
+
+Lemma lenN_ser_tok10 t : k_tag t = 10 -> lenN (k_val t) = 3 -> lenN (ser_tok t) = 7.
+Proof.
+  intros E L. unfold ser_tok. rewrite E. change (itoa_N 10) with [49; 48]. cbn [app lenN].
+  rewrite lenN_app. cbn [lenN]. lia.
+Qed.
+
+Lemma seen_rel_ext fp a b : (forall f, memN f a = memN f b) -> seen_rel fp a -> seen_rel fp b.
+Proof. intros E H f. rewrite <- E. apply H. Qed.
+
+Lemma dec_loop_past c cp from fsize gfuel mf m off pos lvp lvo tb :
+  fsize < off -> dec_loop c cp from fsize false gfuel (S mf) m off pos lvp lvo tb = dec_finish false m off pos lvp lvo.
+Proof.
+  intros H. rewrite dec_loop_strict_S. assert (E : (off <=? fsize) = false) by (apply N.leb_gt; assumption).
+  rewrite E. reflexivity.
+Qed.
+
+Lemma wf_ctx_all c : wf_ctx c = true ->
+  wf_table c false (c_header c) = true /\ wf_table c false (c_trailer c) = true /\
+  init_ok (c_header c) (c_hdr_init c) = true /\ init_ok (c_trailer c) (c_trl_init c) = true /\
+  map (fun e => fst (snd e)) (c_hdr_init c) = [8; 9; 35] /\
+  map (fun e => fst (snd e)) (c_trl_init c) = [10] /\
+  (exists ty, find_be (c_fields c) 9 = Some ty /\ is_int_type ty = true) /\
+  forallb (fun tr => negb (t_group tr)) (g_traits (c_trailer c)) = true /\
+  (forall md, In md (c_msgs c) -> wf_body c (md_meta md) = true).
+Proof.
+  unfold wf_ctx. intros H.
+  apply andb_true_iff in H. destruct H as [H A10]. apply andb_true_iff in H. destruct H as [H A9].
+  apply andb_true_iff in H. destruct H as [H A8]. apply andb_true_iff in H. destruct H as [H A7].
+  apply andb_true_iff in H. destruct H as [H A6]. apply andb_true_iff in H. destruct H as [H A5].
+  apply andb_true_iff in H. destruct H as [H A4]. apply andb_true_iff in H. destruct H as [H A3].
+  apply andb_true_iff in H. destruct H as [A1 A2].
+  split; [assumption|]. split; [assumption|]. split; [assumption|]. split; [assumption|].
+  split; [apply list_eqb_eq; assumption|]. split; [apply list_eqb_eq; assumption|].
+  split.
+  { unfold Common_BodyLength in A8. destruct (find_be (c_fields c) 9) as [ty|]; [eauto | discriminate]. }
+  split; [assumption|]. intros md Hin. rewrite forallb_forall in A10. auto.
+Qed.
+
+Section Assembly.
+Variable c : ctx.
+Hypothesis Hwf : wf_ctx c = true.
+Variables (t8 t9 t35 t10 : tok) (mid : list tok) (md : msgdef).
+Let r := mid ++ [t10].
+Let toks := t8 :: t9 :: t35 :: r.
+Let bytes := ser toks.
+Let hlen := lenN (ser [t8; t9; t35]).
+Hypothesis E8 : k_tag t8 = 8.
+Hypothesis E9 : k_tag t9 = 9.
+Hypothesis E35 : k_tag t35 = 35.
+Hypothesis E10 : k_tag t10 = 10.
+Hypothesis L10 : lenN (k_val t10) = 3.
+Hypothesis Hok : toks_ok c toks = true.
+Hypothesis Hauto : no_auto (c_header c) mid = true /\ no_auto (c_trailer c) mid = true.
+Hypothesis Hlen : lenN bytes < 2147483648.
+Hypothesis Hmd : In md (c_msgs c).
+
+Definition decode_result : res (message * N) :=
+  msg_decode c real_caps bytes (mk_message c md false) hlen 7 false.
+
+Definition init_pairs : list (N * list N) := map snd (c_hdr_init c) ++ map snd (c_trl_init c).
+
+Lemma decode_parts :
+  decode_result <> Fuel ->
+  match part (c_header c) toks with
+  | PViol => exists e, decode_result = Exc e
+  | PRest _ r1 =>
+    match part (md_meta md) r1 with
+    | PViol => exists e, decode_result = Exc e
+    | PRest _ r2 =>
+      match part (c_trailer c) r2 with
+      | PViol => exists e, decode_result = Exc e
+      | PRest _ r3 =>
+          exists h b t tl, decode_result = Ok (mkMsg (md_type md) h b t, tl) /\
+            (r3 = [] -> exists extra,
+               Permutation (mflat h ++ mflat b ++ mflat t) (init_pairs ++ map tok_pair mid ++ extra))
+      end
+    end
+  end.
+Proof.
+  intros Hnf.
+  destruct (wf_ctx_all c Hwf) as (Hwh & Hwt & Hih & Hit & Hfh & Hft & _ & Hng & Hwb).
+  pose proof (Hwb md Hmd) as Hwbody.
+  assert (Hwbt : wf_table c false (md_meta md) = true).
+  { unfold wf_body in Hwbody. apply andb_true_iff in Hwbody. apply Hwbody. }
+  destruct Hauto as [Hah Hat].
+  (* the tokens *)
+  assert (Hokr : toks_ok c r = true).
+  { unfold toks in Hok. destruct (toks_ok_cons _ _ _ Hok) as [_ H1]. destruct (toks_ok_cons _ _ _ H1) as [_ H2].
+    destruct (toks_ok_cons _ _ _ H2) as [_ H3]. exact H3. }
+  assert (Hbytes : bytes = ser [t8; t9; t35] ++ ser r ++ []).
+  { unfold bytes, toks. rewrite app_nil_r. change (t8 :: t9 :: t35 :: r) with ([t8; t9; t35] ++ r). apply ser_app. }
+  assert (Hbl : lenN bytes = hlen + lenN (ser r)).
+  { rewrite Hbytes, app_nil_r, lenN_app. reflexivity. }
+  assert (Hfs0 : (lenN bytes + 4294967296 - 0) mod 4294967296 = lenN bytes).
+  { rewrite N.sub_0_r. replace (lenN bytes + 4294967296) with (lenN bytes + 1 * 4294967296) by lia.
+    rewrite N.mod_add by lia. apply N.mod_small. lia. }
+  (* header *)
+  destruct (init_ok_plain _ _ 8 Hih ltac:(rewrite Hfh; cbn; auto)) as (tr8 & Hf8 & Hg8 & _).
+  destruct (init_ok_plain _ _ 9 Hih ltac:(rewrite Hfh; cbn; auto)) as (tr9 & Hf9 & Hg9 & _).
+  destruct (init_ok_plain _ _ 35 Hih ltac:(rewrite Hfh; cbn; auto)) as (tr35 & Hf35 & Hg35 & _).
+  assert (Hstart : sp_fields (sp_fuel toks) (c_header c) false [] toks
+                   = sp_fields (length toks + length toks + length toks) (c_header c) false [35; 9; 8] r).
+  { unfold sp_fuel, toks.
+    rewrite (sp_plain _ _ [] t8 _ tr8); [|rewrite E8; assumption|assumption|reflexivity]. rewrite E8.
+    rewrite (sp_plain _ _ [8] t9 _ tr9); [|rewrite E9; assumption|assumption|rewrite E9; reflexivity]. rewrite E9.
+    rewrite (sp_plain _ _ [9; 8] t35 _ tr35); [|rewrite E35; assumption|assumption|rewrite E35; reflexivity].
+    rewrite E35. reflexivity. }
+  unfold part at 1. rewrite Hstart.
+  assert (Hrelh : part_rel (c_header c) (mk_part (c_header c) (c_hdr_init c) true) [35; 9; 8]).
+  { destruct (init_part_rel c _ _ _ Hwh Hih Hfh) as (A & B & C). split; [assumption|]. split; [assumption|].
+    eapply seen_rel_ext; [|exact C]. intros f. cbn. destruct (f =? 8), (f =? 9), (f =? 35); reflexivity. }
+  assert (Hnah : no_auto (c_header c) r = true).
+  { unfold r, no_auto. rewrite forallb_app. fold (no_auto (c_header c) mid). rewrite Hah. cbn [forallb andb].
+    rewrite E10, (init_ok_auto _ _ 10 Hih), Hfh. destruct (find_trait (g_traits (c_header c)) 10); reflexivity. }
+  assert (Hath : at_toks bytes ((lenN bytes + 4294967296 - 0) mod 4294967296) hlen r []).
+  { exists (ser [t8; t9; t35]). rewrite Hfs0. split; [assumption|]. split; [reflexivity | assumption]. }
+  unfold decode_result, msg_decode in *. cbn [mk_message m_hdr m_body m_trl m_type] in *.
+  set (RH := mbase_decode c real_caps bytes (mk_part (c_header c) (c_hdr_init c) true) hlen 0 false) in *.
+  assert (HnfH : RH <> Fuel) by (intros E; rewrite E in Hnf; apply Hnf; reflexivity).
+  assert (Hsfh : (3 * length r + 1 <= length toks + length toks + length toks)%nat).
+  { unfold toks. cbn [length]. lia. }
+  pose proof (part_decode c bytes _ _ _ r [] hlen 0 (length toks + length toks + length toks)
+                Hwh Hrelh Hokr Hnah Hath Hsfh HnfH) as PH.
+  unfold part_result in PH. fold RH in PH.
+  destruct (sp_fields (length toks + length toks + length toks) (c_header c) false [35; 9; 8] r) as [|sH r1].
+  { destruct PH as (e & He). rewrite He. cbn [bind]. eauto. }
+  destruct (mand_ok (c_header c) sH).
+  2:{ destruct PH as (e & He). rewrite He. cbn [bind]. eauto. }
+  destruct PH as (h & cH & Er & HresH & _ & HpermH). rewrite HresH in *. cbn [bind] in *.
+  (* body *)
+  rewrite Er in Hokr, Hath. destruct (toks_ok_app _ _ _ Hokr) as [_ Hok1].
+  pose proof (at_suffix _ _ _ _ _ _ Hath) as Hatb.
+  set (offb := hlen + lenN (ser cH)) in *.
+  set (RB := mbase_decode c real_caps bytes (create_group (md_meta md) false) offb 0 false) in *.
+  assert (HnfB : RB <> Fuel) by (intros E; rewrite E in Hnf; apply Hnf; reflexivity).
+  assert (Hsfb : (3 * length r1 + 1 <= sp_fuel r1)%nat) by (unfold sp_fuel; lia).
+  pose proof (part_decode c bytes _ _ _ r1 [] offb 0 (sp_fuel r1) Hwbt (body_part_rel c _ Hwbody) Hok1
+                (wf_body_no_auto c _ r1 Hwbody) Hatb Hsfb HnfB) as PB.
+  unfold part_result in PB. fold RB in PB. unfold part at 1.
+  destruct (sp_fields (sp_fuel r1) (md_meta md) false [] r1) as [|sB r2].
+  { destruct PB as (e & He). rewrite He. cbn [bind]. eauto. }
+  destruct (mand_ok (md_meta md) sB).
+  2:{ destruct PB as (e & He). rewrite He. cbn [bind]. eauto. }
+  destruct PB as (b & cB & Er1 & HresB & _ & HpermB). rewrite HresB in *. cbn [bind] in *.
+  rewrite mflat_create in HpermB. cbn [app] in HpermB.
+  (* trailer *)
+  rewrite Er1 in Hok1, Hatb. destruct (toks_ok_app _ _ _ Hok1) as [_ Hok2].
+  pose proof (at_suffix _ _ _ _ _ _ Hatb) as Hatt0.
+  set (offt := offb + lenN (ser cB)) in *.
+  set (m0t := mk_part (c_trailer c) (c_trl_init c) true) in *.
+  set (RT := mbase_decode c real_caps bytes m0t offt 7 false) in *.
+  assert (HnfT : RT <> Fuel) by (intros E; rewrite E in Hnf; apply Hnf; reflexivity).
+  destruct (init_ok_plain _ _ 10 Hit ltac:(rewrite Hft; cbn; auto)) as (tr10 & Hf10 & Hg10 & Hm10).
+  destruct (wf_table_unfold _ _ _ Hwt) as (Hndt & _ & _).
+  assert (Hrelt : part_rel (c_trailer c) m0t [10]) by (apply (init_part_rel c _ _ _ Hwt Hit Hft)).
+  assert (Hfs7 : (lenN bytes + 4294967296 - 7) mod 4294967296 = lenN bytes - 7).
+  { assert (7 <= lenN bytes).
+    { rewrite Hbl. unfold r. rewrite ser_app, lenN_app. cbn [ser flat_map]. rewrite app_nil_r, (lenN_ser_tok10 _ E10 L10). lia. }
+    replace (lenN bytes + 4294967296 - 7) with (lenN bytes - 7 + 1 * 4294967296) by lia.
+    rewrite N.mod_add by lia. apply N.mod_small. lia. }
+  assert (Hperm0 : Permutation (mflat h ++ mflat b) (map snd (c_hdr_init c) ++ map tok_pair (cH ++ cB))).
+  { rewrite map_app, app_assoc. apply Permutation_app; [|assumption].
+    eapply perm_trans; [exact HpermH|]. apply Permutation_app_tail. apply mflat_mk_part. }
+  assert (Hmid : r = (cH ++ cB) ++ r2) by (rewrite Er, Er1, app_assoc; reflexivity).
+  destruct r2 as [|x2 r2x].
+  { (* the last token was taken by the header or the body: the trailer decoder starts past its range *)
+    unfold part at 1. change (sp_fields (sp_fuel []) (c_trailer c) false [] []) with (PRest (@nil N) (@nil tok)).
+    cbn iota.
+    assert (Hoff : offt = lenN bytes).
+    { destruct Hatt0 as (pre & _ & _ & Hfs). rewrite Hfs0, lenN_ser_nil in Hfs. lia. }
+    assert (HRT : RT = dec_finish false m0t offt (lenN (mb_pos m0t)) None 0).
+    { unfold RT, mbase_decode, mb_decode. rewrite Hfs7. unfold dec_fuel. apply dec_loop_past.
+      rewrite Hoff. assert (7 <= lenN bytes) by (rewrite Hbl; unfold r; rewrite ser_app, lenN_app; cbn [ser flat_map]; rewrite app_nil_r, (lenN_ser_tok10 _ E10 L10); lia). lia. }
+    pose proof (finish_result c (c_trailer c) m0t offt (lenN (mb_pos m0t)) None 0 [10] (@nil tok) Hwt Hrelt) as HF.
+    destruct (mand_ok_ext _ 10 [] tr10 Hndt Hf10 Hm10) as [_ Hme]. rewrite Hme in HF.
+    destruct (mand_ok (c_trailer c) []).
+    2:{ destruct HF as (e & He). rewrite HRT, He. cbn [bind]. eauto. }
+    destruct HF as (t & cT & EcT & HresT & _ & HpermT). rewrite HRT, HresT. cbn [bind].
+    exists h, b, t, (offt + lenN (ser cT)). split; [reflexivity|]. intros _.
+    exists [tok_pair t10].
+    assert (HcT : cT = []) by (symmetry in EcT; apply app_eq_nil in EcT; apply EcT).
+    subst cT. cbn [map] in HpermT. rewrite app_nil_r in HpermT, Hmid.
+    assert (HpT : Permutation (mflat t) (map snd (c_trl_init c))).
+    { eapply perm_trans; [exact HpermT|]. apply mflat_mk_part. }
+    rewrite app_assoc. eapply perm_trans; [apply Permutation_app; [exact Hperm0 | exact HpT]|].
+    rewrite <- Hmid. unfold r, init_pairs. rewrite map_app. cbn [map].
+    rewrite <- !app_assoc. apply Permutation_app_head.
+    change (map tok_pair mid ++ [tok_pair t10] ++ map snd (c_trl_init c))
+      with (map tok_pair mid ++ ([tok_pair t10] ++ map snd (c_trl_init c))).
+    rewrite app_assoc. apply Permutation_app_comm. }
+  (* the ordinary case: the trailer decoder sees everything up to the last token *)
+  assert (Hne2 : x2 :: r2x <> []) by discriminate.
+  pose proof (app_removelast_last t10 Hne2) as Hr2.
+  set (r2' := removelast (x2 :: r2x)) in *. set (tl2 := last (x2 :: r2x) t10) in *.
+  assert (Hsplit : mid = (cH ++ cB) ++ r2' /\ t10 = tl2).
+  { unfold r in Hmid. rewrite Hr2, app_assoc in Hmid. apply app_inj_tail in Hmid. exact Hmid. }
+  destruct Hsplit as [Emid Etl]. rewrite <- Etl in Hr2. clear Etl tl2.
+  rewrite Hr2 in Hok2, Hatt0 |- *.
+  destruct (toks_ok_app _ _ _ Hok2) as [Hok2' _].
+  assert (Hatt : at_toks bytes ((lenN bytes + 4294967296 - 7) mod 4294967296) offt r2' (ser [t10])).
+  { destruct Hatt0 as (pre & Hb & Ho & Hfs). exists pre. rewrite Hfs7.
+    rewrite ser_app, app_nil_r in Hb. rewrite ser_app, lenN_app in Hfs. rewrite Hfs0 in Hfs.
+    cbn [ser flat_map] in Hfs. rewrite app_nil_r, (lenN_ser_tok10 _ E10 L10) in Hfs.
+    split; [assumption|]. split; [assumption | lia]. }
+  assert (Hnat : no_auto (c_trailer c) r2' = true).
+  { rewrite Emid in Hat. apply no_auto_app in Hat. apply Hat. }
+  assert (Hauto10 : is_auto (c_trailer c) 10 = true).
+  { rewrite (init_ok_auto _ _ 10 Hit), Hf10, Hft. reflexivity. }
+  assert (Hno10 : forallb (fun t => negb (k_tag t =? 10)) r2' = true).
+  { apply forallb_forall. intros t Hin. unfold no_auto in Hnat. rewrite forallb_forall in Hnat. specialize (Hnat _ Hin).
+    destruct (k_tag t =? 10) eqn:E; [|reflexivity]. apply N.eqb_eq in E. rewrite E, Hauto10 in Hnat. discriminate. }
+  set (sf := S (S (length (r2' ++ [t10]) + length (r2' ++ [t10]) + length (r2' ++ [t10])))).
+  assert (Hsft : (3 * length r2' + 1 <= sf)%nat) by (unfold sf; rewrite app_length; cbn [length]; lia).
+  pose proof (part_decode c bytes _ _ _ r2' (ser [t10]) offt 7 sf Hwt Hrelt Hok2' Hnat Hatt Hsft HnfT) as PT.
+  unfold part_result in PT. fold RT in PT.
+  assert (Hsfe : (length r2' + 2 <= sf)%nat) by (unfold sf; rewrite app_length; cbn [length]; lia).
+  pose proof (sp_ext (c_trailer c) 10 t10 tr10 Hng Hf10 E10 r2' sf [] Hno10 eq_refl Hsfe) as HX.
+  cbn [app] in HX.
+  unfold part at 1. change (sp_fuel (r2' ++ [t10])) with (S sf).
+  destruct (sp_fields sf (c_trailer c) false [10] r2') as [|sT rT].
+  { rewrite HX. destruct PT as (e & He). rewrite He. cbn [bind]. eauto. }
+  destruct rT as [|t' rest'].
+  - destruct HX as (s0 & Es & HX). rewrite HX. subst sT.
+    destruct (mand_ok_ext _ 10 s0 tr10 Hndt Hf10 Hm10) as [Hme1 Hme2]. rewrite Hme2. rewrite Hme1 in PT.
+    destruct (mand_ok (c_trailer c) s0).
+    2:{ destruct PT as (e & He). rewrite He. cbn [bind]. eauto. }
+    destruct PT as (t & cT & EcT & HresT & _ & HpermT). rewrite HresT. cbn [bind].
+    exists h, b, t, (offt + lenN (ser cT)). split; [reflexivity|]. intros _. exists [].
+    rewrite app_nil_r in EcT. subst cT. rewrite app_nil_r.
+    assert (HpT : Permutation (mflat t) (map snd (c_trl_init c) ++ map tok_pair r2')).
+    { eapply perm_trans; [exact HpermT|]. apply Permutation_app_tail. apply mflat_mk_part. }
+    rewrite app_assoc. eapply perm_trans; [apply Permutation_app; [exact Hperm0 | exact HpT]|].
+    rewrite Emid. unfold init_pairs. rewrite (map_app tok_pair (cH ++ cB) r2').
+    generalize (map tok_pair (cH ++ cB)) (map tok_pair r2') (map snd (c_hdr_init c)) (map snd (c_trl_init c)).
+    intros M R A T. rewrite <- !app_assoc. apply Permutation_app_head.
+    rewrite !app_assoc. apply Permutation_app_tail. apply Permutation_app_comm.
+  - destruct HX as (s0 & Es & HX). rewrite HX. subst sT.
+    destruct (mand_ok_ext _ 10 s0 tr10 Hndt Hf10 Hm10) as [Hme1 _]. rewrite Hme1 in PT.
+    destruct (mand_ok (c_trailer c) s0).
+    2:{ destruct PT as (e & He). rewrite He. cbn [bind]. eauto. }
+    destruct PT as (t & cT & EcT & HresT & _ & HpermT). rewrite HresT. cbn [bind].
+    exists h, b, t, (offt + lenN (ser cT)). split; [reflexivity|]. intros E. discriminate E.
+Qed.
+End Assembly.
+
+(* ------------------------------------------------------------------ checksum and framing bytes *)
+From F8 Require Import C07.Chksum C07.Spec_C07 C07.ChksumProofs.
+
+Lemma calc_chksum_some (from : list N) :
+  bytes_small from = true -> 7 <= lenN from -> lenN from < 2147483648 ->
+  exists mchk h, calc_chksum (map Z.of_N (from ++ [0])) (Z.of_N (lenN from)) 0 (Z.of_N (lenN from) - 7) = Some (mchk, h).
+Proof.
+  intros Hs H7 Hlt.
+  pose proof (c07_len_lemma (map Z.of_N (from ++ [0])) (Z.of_N (lenN from)) 0 (Z.of_N (lenN from) - 7)
+                (bytes_ok_of_N _ Hs)) as HL.
+  assert (Hlen : (Z.of_nat (length (map Z.of_N (from ++ [0%N]))) = Z.of_N (lenN from) + 1)%Z).
+  { rewrite map_length, app_length, lenN_len. cbn [length]. lia. }
+  assert (HL2 := HL ltac:(lia) ltac:(lia) ltac:(lia)).
+  destruct (calc_chksum (map Z.of_N (from ++ [0])) (Z.of_N (lenN from)) 0 (Z.of_N (lenN from) - 7)) as [[m h]|];
+    [eauto | discriminate].
+Qed.
+
+Lemma bytes_small_ser c toks : toks_ok c toks = true -> bytes_small (ser toks) = true.
+Proof.
+  induction toks as [|t r IH]; intros Hok; [reflexivity|].
+  destruct (toks_ok_cons _ _ _ Hok) as [Hokt Hokr]. destruct (tok_ok_facts _ _ Hokt) as (_ & Hval & _).
+  destruct (val_ok_facts _ Hval) as (_ & _ & _ & Hb).
+  unfold bytes_small in *. rewrite ser_cons, forallb_app, (IH Hokr), andb_true_r.
+  unfold ser_tok. rewrite forallb_app. cbn [forallb]. rewrite forallb_app. cbn [forallb].
+  apply andb_true_iff. split.
+  - apply forallb_forall. intros d Hd. pose proof (itoa_digits (k_tag t)) as Hall. unfold all_digits in Hall.
+    rewrite Forall_forall in Hall. specialize (Hall _ Hd). apply digit_range in Hall. apply N.ltb_lt. lia.
+  - cbn. rewrite andb_true_r. apply forallb_forall. intros d Hd. rewrite Forall_forall in Hb. apply N.ltb_lt. auto.
+Qed.
+
+Lemma skipN_app_plus {A} (a b : list A) k : skipN (lenN a + k) (a ++ b) = skipN k b.
+Proof.
+  induction a as [|x a IH]; cbn [app lenN].
+  - rewrite N.add_0_l. reflexivity.
+  - cbn [skipN]. destruct (N.succ (lenN a) + k =? 0) eqn:E; [apply N.eqb_eq in E; lia|].
+    replace (N.succ (lenN a) + k - 1) with (lenN a + k) by lia. exact IH.
+Qed.
+
+Lemma atoi3 a b d : is_digit a = true -> is_digit b = true -> is_digit d = true ->
+  fast_atoi_u32 [a; b; d] = (a - 48) * 100 + (b - 48) * 10 + (d - 48).
+Proof.
+  intros Ha Hb Hd.
+  assert (Hdd : dec_digits [a; b; d] 0 = Some (((0 * 10 + (a - 48)) * 10 + (b - 48)) * 10 + (d - 48))).
+  { cbn [dec_digits]. rewrite Ha, Hb, Hd. reflexivity. }
+  pose proof (digit_range _ Ha). pose proof (digit_range _ Hb). pose proof (digit_range _ Hd).
+  pose proof (atoi_digits two32 [a; b; d] 0 _ Hdd ltac:(unfold two32; lia)) as HA.
+  change (Z.of_N 0) with 0%Z in HA.
+  unfold fast_atoi_u32, fast_atoi_mod.
+  rewrite cstr_nonzero by (repeat constructor; lia). rewrite HA. lia.
+Qed.
+
+(* ------------------------------------------------------------------ Message::factory vs conforms *)
+Lemma exact_hyps_facts c toks : exact_hyps c toks = true ->
+  framed toks = true /\ toks_ok c toks = true /\
+  no_auto (c_header c) (middle toks) = true /\ no_auto (c_trailer c) (middle toks) = true /\
+  (forall t8 t9 t35 r, toks = t8 :: t9 :: t35 :: r ->
+     lenN (k_val t9) < 32 /\ lenN (k_val t35) < 32 /\ forallb is_digit (k_val (last toks t8)) = true) /\
+  lenN (ser toks) < 2147483648.
+Proof.
+  unfold exact_hyps, auto_once. intros H.
+  apply andb_true_iff in H. destruct H as [H H5]. apply andb_true_iff in H. destruct H as [H H4].
+  apply andb_true_iff in H. destruct H as [H H3]. apply andb_true_iff in H. destruct H as [H1 H2].
+  apply andb_true_iff in H3. destruct H3 as [H3a H3b]. apply N.ltb_lt in H5.
+  repeat (split; [assumption|]). split; [|assumption].
+  intros t8 t9 t35 r ->. apply andb_true_iff in H4. destruct H4 as [H4 H4c].
+  apply andb_true_iff in H4. destruct H4 as [H4a H4b]. apply N.ltb_lt in H4a, H4b. auto.
+Qed.
+
+Lemma verdict_unfold c t8 t9 t35 r : framed (t8 :: t9 :: t35 :: r) = true ->
+  struct_verdict c (t8 :: t9 :: t35 :: r) =
+  match find_msg (c_msgs c) (k_val t35) with
+  | None => VViol
+  | Some md =>
+      match part (c_header c) (t8 :: t9 :: t35 :: r) with
+      | PViol => VViol
+      | PRest _ r1 =>
+        match part (md_meta md) r1 with
+        | PViol => VViol
+        | PRest _ r2 =>
+          match part (c_trailer c) r2 with
+          | PViol => VViol
+          | PRest _ [] => VConf
+          | PRest _ _ => VIllegal
+          end
+        end
+      end
+  end.
+Proof. intros H. unfold struct_verdict. rewrite H. reflexivity. Qed.
+
+Lemma exact_accept_lemma c toks :
+  wf_ctx c = true -> exact_hyps c toks = true -> struct_verdict c toks <> VIllegal ->
+  strict_factory c (ser toks) <> Fuel ->
+  match strict_factory c (ser toks) with
+  | Ok m => conforms c (ser toks) = true
+  | Exc _ => conforms c (ser toks) = false
+  | _ => False
+  end.
+Proof.
+  intros Hwf Hhyp Hill Hnf.
+  destruct (exact_hyps_facts _ _ Hhyp) as (Hfr & Hok & Hah & Hat & Hlens & Hlen).
+  destruct (frame_split _ Hfr) as (t8 & t9 & t35 & mid & t10 & Etoks & E8 & E9 & E35 & E10 & L10 & Elast & Emid).
+  destruct (Hlens _ _ _ _ Etoks) as (L9 & L35 & Hdig). rewrite Elast in Hdig. rewrite Emid in Hah, Hat.
+  assert (Htk : tokenize (ser toks) = Some toks) by (eapply tokenize_ser; eassumption).
+  unfold conforms. rewrite Htk.
+  subst toks. rewrite (verdict_unfold c _ _ _ _ Hfr) in *.
+  pose proof Hok as Hok'.
+  destruct (toks_ok_cons _ _ _ Hok') as [Ho8 Hr1]. destruct (toks_ok_cons _ _ _ Hr1) as [Ho9 Hr2].
+  destruct (toks_ok_cons _ _ _ Hr2) as [Ho35 Hr3].
+  destruct (tok_ok_facts _ _ Ho8) as (_ & V8 & _). destruct (tok_ok_facts _ _ Ho9) as (_ & V9 & _).
+  destruct (tok_ok_facts _ _ Ho35) as (_ & V35 & _).
+  unfold strict_factory, factory in *.
+  rewrite (extract_header_framed t8 t9 t35 (mid ++ [t10]) E8 E9 E35 V8 V9 V35 L9 L35) in *.
+  cbn [bind] in *.
+  set (toks := t8 :: t9 :: t35 :: mid ++ [t10]) in *.
+  set (hlen := lenN (ser [t8; t9; t35])) in *.
+  assert (Hh0 : (hlen =? 0) = false).
+  { apply N.eqb_neq. unfold hlen. cbn [ser flat_map]. rewrite lenN_app. pose proof (lenN_ser_tok_pos t8). lia. }
+  rewrite Hh0 in *.
+  destruct (val_ok_facts _ V35) as (_ & _ & Hnz35 & _). rewrite (cstr_nonzero _ Hnz35) in *.
+  destruct (find_msg (c_msgs c) (k_val t35)) as [md|] eqn:Hmd.
+  2:{ cbn [is_conf]. apply andb_false_r. }
+  pose proof (find_msg_In _ _ _ Hmd) as Hin.
+  set (R := msg_decode c real_caps (ser toks) (mk_message c md false) hlen 7 false) in *.
+  assert (HnfR : R <> Fuel) by (intros E; rewrite E in Hnf; apply Hnf; reflexivity).
+  pose proof (decode_parts c Hwf t8 t9 t35 t10 mid md E8 E9 E35 E10 L10 Hok (conj Hah Hat) Hlen Hin HnfR) as HD.
+  fold toks in HD.
+  destruct (part (c_header c) toks) as [|sH r1].
+  { destruct HD as (e & He). unfold decode_result in He. fold toks hlen R in He. rewrite He. cbn [bind is_conf]. apply andb_false_r. }
+  destruct (part (md_meta md) r1) as [|sB r2].
+  { destruct HD as (e & He). unfold decode_result in He. fold toks hlen R in He. rewrite He. cbn [bind is_conf]. apply andb_false_r. }
+  destruct (part (c_trailer c) r2) as [|sT r3].
+  { destruct HD as (e & He). unfold decode_result in He. fold toks hlen R in He. rewrite He. cbn [bind is_conf]. apply andb_false_r. }
+  destruct r3 as [|x3 r3']; [|exfalso; apply Hill; reflexivity].
+  destruct HD as (h & b & t & tl & HR & _). unfold decode_result in HR. fold toks hlen R in HR. rewrite HR.
+  cbn [bind m_hdr m_body m_trl m_type is_conf]. rewrite andb_true_r.
+  (* the last seven bytes and the checksum *)
+  set (bytes := ser toks) in *.
+  assert (Hb : bytes = ser (t8 :: t9 :: t35 :: mid) ++ ser_tok t10).
+  { unfold bytes, toks. change (t8 :: t9 :: t35 :: mid ++ [t10]) with ((t8 :: t9 :: t35 :: mid) ++ [t10]).
+    rewrite ser_app. cbn [ser flat_map]. rewrite app_nil_r. reflexivity. }
+  set (pre := ser (t8 :: t9 :: t35 :: mid)) in *.
+  assert (Hv10 : exists a b0 d, k_val t10 = [a; b0; d]).
+  { destruct (k_val t10) as [|a [|b0 [|d [|e l]]]]; cbn [lenN] in L10; try lia. eauto. }
+  destruct Hv10 as (a & b0 & d & Ev10). rewrite Ev10 in Hdig. cbn [forallb] in Hdig.
+  apply andb_true_iff in Hdig. destruct Hdig as [Ha Hdig]. apply andb_true_iff in Hdig. destruct Hdig as [Hb0 Hdig].
+  apply andb_true_iff in Hdig. destruct Hdig as [Hd _].
+  assert (Hs10 : ser_tok t10 = [49; 48; 61; a; b0; d; 1]).
+  { unfold ser_tok. rewrite E10, Ev10. reflexivity. }
+  assert (Hlb : lenN bytes = lenN pre + 7) by (rewrite Hb, lenN_app, Hs10; reflexivity).
+  assert (E7 : (lenN bytes <? 7) = false) by (apply N.ltb_ge; lia). rewrite E7.
+  replace (lenN bytes - 7) with (lenN pre) by lia.
+  assert (Hn1 : nthN bytes (lenN pre) = 49).
+  { unfold nthN. rewrite Hb, skipN_app, Hs10. reflexivity. }
+  assert (Hn2 : nthN bytes (lenN pre + 1) = 48).
+  { unfold nthN. rewrite Hb, skipN_app_plus, Hs10. reflexivity. }
+  rewrite Hn1, Hn2. cbn [N.eqb Pos.eqb negb orb].
+  assert (Hck3 : firstN 3 (skipN (lenN pre + 3) bytes) = [a; b0; d]).
+  { rewrite Hb, skipN_app_plus, Hs10. reflexivity. }
+  rewrite Hck3.
+  pose proof (bytes_small_ser c toks Hok) as Hsmall. fold bytes in Hsmall.
+  destruct (calc_chksum_some bytes Hsmall ltac:(lia) Hlen) as (mchk & hh & Hcalc). rewrite Hcalc.
+  pose proof (chk_value bytes mchk hh Hsmall ltac:(lia) Hlen Hcalc) as Hval.
+  replace (lenN bytes - 7) with (lenN pre) in Hval by lia.
+  rewrite (atoi3 a b0 d Ha Hb0 Hd), Hval.
+  assert (Hchk : chk_ok bytes = ((a - 48) * 100 + (b0 - 48) * 10 + (d - 48) =? sumN (firstN (lenN pre) bytes) mod 256)).
+  { unfold chk_ok. cbv zeta. rewrite E7. replace (lenN bytes - 7) with (lenN pre) by lia.
+    rewrite Hb at 1. rewrite skipN_app, Hs10. rewrite Ha, Hb0, Hd. reflexivity. }
+  rewrite Hchk.
+  destruct ((a - 48) * 100 + (b0 - 48) * 10 + (d - 48) =? sumN (firstN (lenN pre) bytes) mod 256); reflexivity.
+Qed.
